@@ -185,3 +185,23 @@ fn scalar_lerp_monotone() {
     let r = a + (b - a) * t;
     assert!(r >= a.min(e) && r <= a.max(e));
 }
+
+// ---------------------------------------------------------------- C09 on unit vectors (BOUNDED: dimension 5, coordinate axes)
+// distinct states are at a positive distance and d(e,e) == 0, for every coordinate of a 5-dimensional space
+#[kani::proof]
+#[kani::unwind(8)]
+#[kani::stub(f64::sqrt, sqrt_model)]
+#[kani::stub(f64::powi, powi_model)]
+fn rv_distance_axes_d5() {
+    let i: usize = kani::any();
+    kani::assume(i < 5);
+    let sp = RealVectorStateSpace::new(5, None).unwrap();
+    let x: f64 = kani::any();
+    kani::assume(x.abs() >= 1.0e-100 && x.abs() <= 1.0e100);        // x * x neither underflows to 0 nor overflows
+    let zero = RealVectorState { values: vec![0.0, 0.0, 0.0, 0.0, 0.0] };
+    let mut e = RealVectorState { values: vec![0.0, 0.0, 0.0, 0.0, 0.0] };
+    e.values[i] = x;
+    let d = sp.distance(&zero, &e);
+    assert!(d > 0.0);                                  // distinct states are not at distance 0
+    assert!(sp.distance(&e, &e) == 0.0);
+}
